@@ -80,6 +80,14 @@ def run(p, script, seed=0, frame=True, permute=None):
         elif s[0] == "reset":
             det.reset()
             ev.append(project(det, "reset", [], p))
+        elif s[0] == "bad":
+            # a malformed update in between (a single row, or one column too many): refused
+            bad = np.zeros((1, p["F"])) if t % 2 else np.zeros((6, p["F"] + 1))
+            try:
+                det.update(bad)
+                ev.append(project(det, "bad-accepted", [], p))
+            except ValueError:
+                ev.append(project(det, "bad", [], p))
         else:
             det.update(wrap(s[1]))
             e0 = "None"
@@ -105,7 +113,7 @@ def batch(rng, F, loc, spread, n=None, even=False):
     return [[loc[f] + rng.randint(0, spread) for f in range(F)] for _ in range(n)]
 
 
-def history(rng, p, nb, sizes=None):
+def history(rng, p, nb, sizes=None, bads=False):
     F = p["F"]
     loc = [rng.randint(-5, 5) for _ in range(F)]
     spread = rng.randint(6, 14)
@@ -130,6 +138,8 @@ def history(rng, p, nb, sizes=None):
             script.append(("set_reference", batch(rng, F, loc, spread, n=rng.choice(sizes) if sizes else None, even=ev_)))
         elif rng.random() < 0.04 and b > 1:
             script.append(("reset",))
+        if bads and rng.random() < 0.15:
+            script.append(("bad",))
         if rng.random() < 0.05:
             script.append(("update", [list(r) for r in script[0][1]]))     # a batch identical to the first reference
         else:
